@@ -53,7 +53,7 @@ func firstDiff(a, b []string) string {
 func run(c *mon.Case) {
 	uichk.Init()
 	r := c.Rng
-	s, err := uichk.NewSession(r, 6)
+	s, err := uichk.NewSessionAt(r, 6, uichk.PickBase(r))
 	if err != nil {
 		c.Count("session_build_failed", 1)
 		return
